@@ -704,6 +704,9 @@ func evalSelect(s *Select, env map[string]*Table, opt Options) *Table {
 	if s.Limit != nil {
 		v := evalExpr(s.Limit, &rowEnv{opt: opt})
 		n, ok := v.(int64)
+		if prim.IsHugeCount(v) {
+			n, ok = int64(len(outs)), true
+		}
 		if !ok || n < 0 {
 			fail("LIMIT is not a non-negative integer: %s", prim.Show(v))
 		}
